@@ -209,12 +209,14 @@ package sipsp
 //@   ensures[C10] "u64-notnumber": err == ErrHdrValNotNumber ==> !allDigits(b, 0, len(b))
 
 //@ func setFromParamVal(buf, pf) (err)
+//@   law[C03,C02] EXT(buf)
 //@   requires bufOK(buf) && pf != nil && 0 <= pf.pstart && pf.pend <= len(buf) && 0 <= pf.vstart && pf.vend <= len(buf)
 //@   modifies pf.Tag, pf.HasExpires, pf.Expires, pf.Q, pf.LR, pf.ParamErr, pf.ErrOffs, pf.pstart, pf.pend, pf.vstart, pf.vend
 //@   loop 0 "for ; i < pf.vend && buf[i] != '.'; i++"
 //@     invariant pf.vstart <= i && i <= pf.vend && pf.vstart < pf.vend
 //@     decreases pf.vend - i
 //@   ensures pf.pstart == 0 && pf.pend == 0 && pf.vstart == 0 && pf.vend == 0
+//@   ensures err == ErrHdrOk || err == ErrHdrValBad || err == ErrHdrValTooLong || err == ErrHdrNumTooBig || err == ErrHdrValNotNumber
 //@   ensures pf.Tag == pf_old.Tag || (int(pf.Tag.Offs) == pf_old.vstart && fend(pf.Tag) == pf_old.vend && pf_old.vstart < pf_old.vend)
 //@   ensures[C10] "expires-saturates": pf_old.pstart < pf_old.pend && pf_old.vstart < pf_old.vend && nameIs(buf, pf_old.pstart, pf_old.pend, []byte("expires")) &&
 //@                 allDigits(buf, pf_old.vstart, pf_old.vend) ==> pf.HasExpires && pf.Expires == satu32(satdec(buf, pf_old.vstart, pf_old.vend))
@@ -222,6 +224,8 @@ package sipsp
 //@                 pf.Expires == pf_old.Expires && pf.HasExpires == pf_old.HasExpires
 
 //@ func ParseNameAddrPVal(h, buf, offs, pfrom) (n, err)
+//@   law[C03,C02] EXT(buf)
+//@   law[C02] RES(buf, offs) ignoring pfrom.soffs
 //@   requires bufOK(buf) && 0 <= offs && offs <= len(buf) && pfrom != nil && fbOK(pfrom, offs, pfrom.soffs)
 //@   modifies *pfrom
 //@   loop 0 "for i < len(buf)"
@@ -321,6 +325,8 @@ package sipsp
 // ---- first line (C08) ----
 
 //@ func ParseFLine(buf, offs, pl) (n, err)
+//@   law[C03,C02] EXT(buf)
+//@   law[C02] RES(buf, offs)
 //@   requires bufOK(buf) && 0 <= offs && offs <= len(buf) && pl != nil && flOK(pl, offs)
 //@   modifies *pl
 //@   cases pl.state 0 7
